@@ -135,7 +135,7 @@ def interp (arange : Nat → List κ) (d : Data κ α) (dim : String) (newc : Li
 def interpPinned (arange : Nat → List κ) (d : Data κ α) (dim : String) (newc : List κ) : Except Err (Data κ α) := do
   let u ← d.unfold arange dim
   let u' := { u with values := mapCols (fun _ c => newc.map (interp1 A (d.coord dim) c)) newc.length u.values,
-                     coords := setAt u.coords 0 newc,
+                     coords := replaceCoord0 (some newc) u.coords,
                      unf := u.unf.map (fun (p : List Nat × List String) => (setAt p.1 (d.index dim) newc.length, p.2)) }
   let r ← u'.fold
   .ok (r.addHist "interp" ["dim", "left", "new_coord", "right"])
